@@ -1,17 +1,16 @@
 /-
 C06 — close() is prompt, final and leaves nothing behind.
 
-Most of the property holds of the pinned code and is proved here.  Two clauses do not hold
-in rare interleavings (genuine defects, recorded as known findings, see known_findings.txt /
-DESIGN.md): (1) "a closed pool keeps no idle objects": an object whose return overlaps
-close() can stay in the queue (`C06_witness_idle_retained`, replayed on the real code:
-corpus/C06/close_window_retains_idle.trace); (2) "status() reports max_size 0": a resize()
-that passed its closed-check before close() ran can set max_size afterwards
-(`C06_witness_max_size`).  The provable part is named `…_partial`.
+The whole property is proved of the current code.  Two clauses did not hold of the pinned
+code in rare interleavings (genuine defects, repaired in /repo, see known_findings.txt /
+DESIGN.md §11.2): (1) "a closed pool keeps no idle objects": an object whose return
+overlapped close() could stay in the queue; (2) "status() reports max_size 0": a resize()
+that passed its closed-check before close() ran could set max_size afterwards.  The
+schedules that exhibited them are kept as `C06_regression_idle` / `C06_regression_max`.
 
 Property theorems only; helper lemmas live in `Lemmas/`.
 -/
-import DeadpoolVerif.Lemmas.Reach
+import DeadpoolVerif.Lemmas.Closed
 import DeadpoolVerif.Lemmas.Frame
 
 namespace DeadpoolVerif
@@ -76,7 +75,7 @@ theorem step_closed_mono {s s' : State} {a : Action} (l : Link s) (h : step s a 
         simp only at h1
         split at h1
         · cases pc
-          all_goals simp only [stepResize, finishResize, returnResize] at h1
+          all_goals simp only [stepResize, finishResize] at h1
           all_goals repeat' split at h1
           all_goals first | (simp at h1; done) | skip
           all_goals (simp only [Option.some.injEq] at h1; subst h1)
@@ -151,79 +150,125 @@ theorem C06_get_after_close_fails (s s' : State) (i : Nat) (t : Timeouts) (pc : 
     | (exact Or.inr rfl)
     | (exact absurd q (by simp))
 
-/-- close() wakes every caller waiting for a slot: the queue is empty afterwards (each of
-them completes with `Closed` at its next poll, `C02_woken_completes`) -/
-theorem C06_close_wakes_all (s s' : State) (i n old : Nat)
-    (h : stepResize s i n true .closeSem old = some s') :
-    s'.sem.closed = true ∧ s'.sem.queue = [] := by
-  simp only [stepResize, Option.some.injEq] at h
-  subst h
-  exact ⟨rfl, rfl⟩
+/-- **C06 (close is one step).** close() runs as one critical section: it closes the
+semaphore — which wakes every caller waiting for a slot: the queue is empty afterwards and
+each of them completes with `Closed` at its next poll (`C02_woken_completes`) —, sets
+`max_size` to 0 and releases and detaches every idle object, front to back. -/
+theorem C06_close_effect (s s' : State) (i n old : Nat)
+    (h : stepResize s i n true .lock old = some s') :
+    s'.sem.closed = true ∧ s'.sem.queue = [] ∧ s'.maxSize = 0 ∧ s'.idle = [] ∧
+    s'.size = s.size - s.idle.length ∧ s'.lock = none ∧
+    s'.log = s.log ++ (drainEvs i s.idle ++ [.closedEv i]) ∧ s'.ops = s.ops.set i .done := by
+  simp only [stepResize] at h
+  split at h
+  · simp at h
+  · rename_i hl
+    simp only [if_true, Option.some.injEq] at h
+    subst h
+    exact ⟨rfl, rfl, rfl, rfl, rfl, hl, rfl, rfl⟩
 
-/-- **C06 (resize has no effect on a closed pool).** -/
+/-- every drained object is detached and then destroyed, in queue order -/
+theorem C06_drain_events (i : Nat) (l : List Obj) :
+    drainEvs i l = l.flatMap (fun o => [.detach i o.id, .destroy i o.id]) := by
+  induction l with
+  | nil => rfl
+  | cons o rest ih => simp [drainEvs, ih]
+
+/-- **C06 (resize has no effect on a closed pool).**  The check is made under the mutex
+that close() holds throughout, so there is no window between check and effect. -/
 theorem C06_resize_noop_after_close (s s' : State) (i n : Nat)
-    (hc : s.sem.closed = true) (h : stepResize s i n false .check 0 = some s') :
+    (hc : s.sem.closed = true) (h : stepResize s i n false .lock 0 = some s') :
     s' = (s.setOp i .done).emit [.resized i n] := by
-  simp only [stepResize, hc, if_true, returnResize, Bool.false_eq_true, if_false,
-    Option.some.injEq] at h
-  exact h.symm
+  simp only [stepResize] at h
+  split at h
+  · simp at h
+  · simp only [Bool.false_eq_true, if_false, hc, if_true, Option.some.injEq] at h
+    exact h.symm
 
-/-- **C06 (objects returned to a closed pool are discarded).** After close() has set
-`max_size = 0`, an object coming back takes the discard branch of `return_object`: it is
+/-- **C06 (a closed pool keeps nothing, in every reachable state).** Whenever the pool is
+closed — at rest or with any number of operations in progress, after any history —
+`max_size` is 0 (so `status()` reports 0), the idle queue is empty, and nobody is inside
+the critical section of `resize`. -/
+theorem C06_closed_pool_keeps_nothing (cfg : Cfg) (acts : List Action)
+    (hc : (run (init cfg) acts).sem.closed = true) :
+    (run (init cfg) acts).maxSize = 0 ∧ (run (init cfg) acts).idle = [] ∧
+    (run (init cfg) acts).status.1 = 0 ∧ (run (init cfg) acts).lock = none := by
+  have k := run_closedInv cfg acts
+  refine ⟨k.max hc, k.idle hc, ?_, k.nolock hc⟩
+  unfold State.status
+  split <;> exact k.max hc
+
+/-- **C06 (objects returned to a closed pool are discarded).** In every reachable state of
+a closed pool an object coming back takes the discard branch of `return_object`: it is
 detached and destroyed, never queued. -/
-theorem C06_return_after_close_discards (s s' : State) (i : Nat) (o : Obj)
-    (hm : s.maxSize = 0) (hs : 0 < s.size) (hl : s.lockFree i = true)
-    (h : stepRet s i .lock o = some s') :
-    s'.idle = s.idle ∧ s'.ops = s.ops.set i (.ret .detach o) := by
-  have : ¬ s.size ≤ s.maxSize := by omega
-  simp only [stepRet, hl, Bool.not_true, Bool.false_eq_true, if_false, this, Option.some.injEq] at h
-  subst h
-  exact ⟨rfl, rfl⟩
-
-/-- **C06 (no idle objects, partial).** When a closed pool is at rest and its shrink
-collected everything (`debt = 0`, `max_size = 0`), it holds no idle object and no object
-at all besides those still in callers' hands.  (Without `debt = 0` see
-`C06_witness_idle_retained`.) -/
-theorem C06_no_idle_after_close_partial (cfg : Cfg) (acts : List Action)
-    (hd : ∀ op ∈ (run (init cfg) acts).ops, op = Op.done)
-    (hm : (run (init cfg) acts).maxSize = 0) (hdebt : (run (init cfg) acts).debt = 0) :
-    (run (init cfg) acts).idle = [] ∧ (run (init cfg) acts).out = [] := by
+theorem C06_return_after_close_discards (cfg : Cfg) (acts : List Action) (s' : State) (i : Nat)
+    (o : Obj) (hc : (run (init cfg) acts).sem.closed = true)
+    (hop : (run (init cfg) acts).ops[i]? = some (.ret .lock o))
+    (h : stepRet (run (init cfg) acts) i .lock o = some s') :
+    s'.idle = [] ∧ s'.ops = (run (init cfg) acts).ops.set i (.ret .detach o) ∧
+    s'.size = (run (init cfg) acts).size - 1 := by
+  have k := run_closedInv cfg acts
   have a := run_acct cfg acts
   generalize run (init cfg) acts = s at *
-  have p0 : sumW Op.permW s.ops = 0 := sumW_zero _ _ (fun x hx => by rw [hd x hx]; rfl)
-  have o0 : sumW Op.objW s.ops = 0 := sumW_zero _ _ (fun x hx => by rw [hd x hx]; rfl)
-  have t := a.tok
-  have c := a.cov
-  rw [hm, hdebt, p0] at t
-  rw [p0, o0] at c
-  constructor
-  · apply List.eq_nil_of_length_eq_zero; omega
-  · apply List.eq_nil_of_length_eq_zero; omega
+  have b := sumW_mem_le Op.sizeW _ _ _ hop
+  simp only [Op.sizeW] at b
+  have az := a.siz
+  have hm := k.max hc
+  have : ¬ s.size ≤ s.maxSize := by omega
+  have hl : s.lockFree i = true := by simp [State.lockFree, k.nolock hc]
+  simp only [stepRet, hl, Bool.not_true, Bool.false_eq_true, if_false, this, Option.some.injEq] at h
+  subst h
+  exact ⟨k.idle hc, rfl, rfl⟩
 
-/-- the interleaving in which a closed pool keeps an idle object: the return of object 0
-has pushed it back but not yet released its permit when close()'s shrink looks for one -/
+/-- **C06 (nothing left behind).** When a closed pool is at rest, the only objects that
+still exist are those in callers' hands: `size` equals their number and the queue is empty. -/
+theorem C06_closed_at_rest (cfg : Cfg) (acts : List Action)
+    (hd : ∀ op ∈ (run (init cfg) acts).ops, op = Op.done)
+    (hc : (run (init cfg) acts).sem.closed = true) :
+    (run (init cfg) acts).idle = [] ∧
+    (run (init cfg) acts).size = (run (init cfg) acts).out.length ∧
+    (run (init cfg) acts).status = (0, (run (init cfg) acts).out.length, 0, 0) := by
+  have k := run_closedInv cfg acts
+  have a := run_acct cfg acts
+  generalize run (init cfg) acts = s at *
+  have s0 : sumW Op.sizeW s.ops = 0 := sumW_zero _ _ (fun x hx => by rw [hd x hx]; rfl)
+  have u0 : sumW Op.usersW s.ops = 0 := sumW_zero _ _ (fun x hx => by rw [hd x hx]; rfl)
+  have hi := k.idle hc
+  have az := a.siz
+  have au := a.usr
+  rw [hi, s0] at az
+  rw [u0] at au
+  simp only [List.length_nil, Nat.zero_add, Nat.add_zero] at az au
+  refine ⟨hi, az, ?_⟩
+  unfold State.status
+  rw [k.max hc, az, au]
+  simp
+
+/-- the interleaving in which the pinned code kept an idle object in the closed pool: the
+return of object 0 has pushed it back but not yet released its permit when close() runs.
+Now close() drains the queue regardless of permits. -/
 def C06_trace_idle : List Action :=
   [ .start (.get {}), .step 0 .run, .step 0 .run, .step 0 .run, .step 0 .ok, .step 0 .run,
     .start (.ret 0), .step 1 .run, .step 1 .run,
-    .start .close, .step 2 .run, .step 2 .run, .step 2 .run,
-    .step 1 .run, .step 2 .run ]
+    .start .close, .step 2 .run,
+    .step 1 .run ]
 
-theorem C06_witness_idle_retained :
+theorem C06_regression_idle :
     let s := run (init { maxSize := 1 }) C06_trace_idle
     (run? (init { maxSize := 1 }) C06_trace_idle).isSome = true ∧
-    s.sem.closed = true ∧ (∀ op ∈ s.ops, op = Op.done) ∧ s.idle.length = 1 ∧ s.debt = 1 := by
-  refine ⟨by decide, by decide, by decide, by decide, by decide⟩
+    s.sem.closed = true ∧ (∀ op ∈ s.ops, op = Op.done) ∧ s.idle = [] ∧ s.size = 0 ∧
+    Ev.destroy 2 0 ∈ s.log := by
+  refine ⟨by decide, by decide, by decide, by decide, by decide, by decide⟩
 
-/-- a resize() that passed its closed-check before close() ran sets `max_size` afterwards -/
+/-- a resize() that started before close() ran takes the mutex after it: it sees the closed
+flag under the mutex and leaves `max_size` at 0 -/
 def C06_trace_max : List Action :=
-  [ .start (.resize 3), .step 0 .run,
-    .start .close, .step 1 .run, .step 1 .run, .step 1 .run, .step 1 .run,
-    .step 0 .run, .step 0 .run ]
+  [ .start (.resize 3), .start .close, .step 1 .run, .step 0 .run ]
 
-theorem C06_witness_max_size :
+theorem C06_regression_max :
     let s := run (init { maxSize := 1 }) C06_trace_max
     (run? (init { maxSize := 1 }) C06_trace_max).isSome = true ∧
-    s.sem.closed = true ∧ (∀ op ∈ s.ops, op = Op.done) ∧ s.maxSize = 3 := by
-  refine ⟨by decide, by decide, by decide, by decide⟩
+    s.sem.closed = true ∧ (∀ op ∈ s.ops, op = Op.done) ∧ s.maxSize = 0 ∧ s.sem.permits = 1 := by
+  refine ⟨by decide, by decide, by decide, by decide, by decide⟩
 
 end DeadpoolVerif
